@@ -717,6 +717,94 @@ def single_oracle(DP, F, virocon, c, want_calls=False):
     return ("ok" if judge_pert else "ok-no-perturbation-judgement", None, "", calls)
 
 
+TINY_SIG = {"clause": "refit-tiny-start", "site": "fit_function", "kind": "minpack-relative-step"}
+
+
+def tiny_start_refit_oracle(DP, offset, weighted=False):
+    """fit followed by re-fit of one object, where the first fit leaves a parameter tiny but not zero (an intercept of `offset`): the
+    re-fit starts from the previous estimate and must still return the linear least-squares solution of the new data"""
+    def lin(x, a, b):
+        return a + b * x
+    x = np.linspace(0.5, 6.0, 9)
+    f = DP.DependenceFunction(lin, weights=(lambda xx, yy: 1.0 + 0.1 * xx) if weighted else None)
+    f.fit(x, 2.0 * x + offset)
+    first = [float(v) for v in f.parameters.values()]
+    f.fit(x, 5.0 + 2.0 * x)
+    p = [float(v) for v in f.parameters.values()]
+    if abs(p[0] - 5.0) > 1e-4 or abs(p[1] - 2.0) > 1e-4:
+        return (dict(TINY_SIG), "f = DependenceFunction(a + b x%s); f.fit(x, 2 x + %g) gives %r; f.fit(x, 5 + 2 x) on x = linspace(0.5, 6, 9) then gives %r "
+                "instead of (5, 2): the re-fit starts at the previous estimate and MINPACK's forward-difference step, relative to |a| = %.3g, is below "
+                "the resolution of the residuals, so a never moves" % (", weights" if weighted else "", offset, first, p, abs(first[0])))
+    return None
+
+
+def weights_refit_oracle(DP, seed):
+    """fit followed by re-fit on OTHER data with the same number of support points, weights callable that depends on the data:
+    the re-fitted parameters minimise the squared residual weighted with the weights of the CURRENT data (= the weighted linear
+    least-squares solution = what a freshly declared function gets on the same data), for a single function and for a chain of
+    two whose dependent is declared and fitted first.  -> None or (signature, message)"""
+    r = np.random.default_rng([seed, 143])
+    n = int(r.integers(4, 15))
+    sig_tiny = None
+    wkind = ["y", "absy", "x_times_y"][seed % 3]
+    wfun = {"y": (lambda x, y: y), "absy": (lambda x, y: np.abs(y) + 0.1), "x_times_y": (lambda x, y: 0.5 + x * np.abs(y))}[wkind]
+    bounds = [None, [(None, None), (None, None)], [(-50.0, 50.0), (-50.0, 50.0)]][(seed // 3) % 3]
+
+    def data(k):
+        x = np.sort(r.uniform(0.5, 8.0, n))
+        c = r.uniform(0.5, 3.0, 3)
+        y = (c[0] + c[1] * x if k % 2 == 0 else c[0] * 4 + 9.0 / (x + c[2])) * (1 + 0.05 * r.standard_normal(n))
+        return x, np.abs(y) + 0.2
+
+    def lin(x, a, b):
+        return a + b * x
+
+    def wlsq(x, y, extra=None):
+        w = 1.0 / np.asarray(wfun(x, y), dtype=float)            # curve_fit(sigma=weights): residuals are divided by them
+        A = np.c_[np.ones_like(x), x if extra is None else extra]
+        return np.linalg.lstsq(A * w[:, None], y * w, rcond=None)[0]
+
+    datasets = [data(k) for k in range(7)]
+    f = DP.DependenceFunction(lin, bounds=bounds, weights=wfun)
+    for k, (x, y) in enumerate(datasets[:3]):
+        before = [float(v) for v in f.parameters.values()]
+        f.fit(x, y)
+        p = np.array([float(v) for v in f.parameters.values()])
+        if any(0 < abs(b0) < 1e-6 and float(v) == b0 for b0, v in zip(before, p)):
+            sig_tiny = dict(TINY_SIG)
+        ref = wlsq(x, y)
+        fresh = DP.DependenceFunction(lin, bounds=bounds, weights=wfun)
+        fresh.fit(x, y)
+        q = np.array([float(v) for v in fresh.parameters.values()])
+        if np.max(np.abs(p - ref)) > 1e-4 * max(1.0, float(np.max(np.abs(ref)))) or np.max(np.abs(p - q)) > 1e-6 * max(1.0, float(np.max(np.abs(q)))):
+            return (sig_tiny or {"clause": "weights-refit", "site": "_fit", "fit_number": min(k, 1)},
+                    "DependenceFunction(a + b x, bounds=%r, weights=%s), fit number %d of the same object on %d points (x=%r, y=%r): parameters %r, "
+                    "the weighted linear least-squares solution of THESE data is %r and a freshly declared function gets %r"
+                    % (bounds, wkind, k + 1, n, x.tolist(), y.tolist(), p.tolist(), ref.tolist(), q.tolist()))
+    # chain: dependent g(x) = a + b * h(x) declared and fitted first, then its conditioner h; both with data-dependent weights
+    def dep_shape(x, a, b, h=None):
+        return a + b * h(x)
+    h = DP.DependenceFunction(lin, weights=wfun)
+    g = DP.DependenceFunction(dep_shape, weights=wfun, h=h)
+    for k in range(2):
+        (xg, yg), (xh, yh) = datasets[3 + 2 * k], datasets[4 + 2 * k]      # every fit on data of its own
+        g.fit(xg, yg)
+        before = [float(v) for v in g.parameters.values()] + [float(v) for v in h.parameters.values()]
+        h.fit(xh, yh)
+        ph = np.array([float(v) for v in h.parameters.values()])
+        pg = np.array([float(v) for v in g.parameters.values()])
+        if any(0 < abs(b0) < 1e-6 and float(v) == b0 for b0, v in zip(before, list(pg) + list(ph))):
+            sig_tiny = dict(TINY_SIG)
+        rh = wlsq(xh, yh)
+        rg = wlsq(xg, yg, extra=rh[0] + rh[1] * xg)
+        for nm, pp, rr in (("conditioner", ph, rh), ("dependent", pg, rg)):
+            if np.max(np.abs(pp - rr)) > 1e-4 * max(1.0, float(np.max(np.abs(rr)))):
+                return (sig_tiny or {"clause": "weights-refit", "site": "_fit", "fit_number": min(k, 1), "chain": nm},
+                        "chain g = a + b h(x), h = a + b x, weights=%s on both, round %d of (fit g, fit h) on %d points: the %s has parameters %r, "
+                        "the weighted least-squares solution of the current data is %r" % (wkind, k + 1, n, nm, pp.tolist(), rr.tolist()))
+    return None
+
+
 # ---------------------------------------------------------------------- dispatch correspondence
 def opt_fl(v):
     return "None" if v is None else "(Some %s)" % fl(float(v))
@@ -1094,6 +1182,16 @@ def replay(ctx, rp):
         if isinstance(o, tuple):
             print("  ", o[1])
         return isinstance(o, tuple)
+    if rp.get("kind") == "tiny-start":
+        o = tiny_start_refit_oracle(DP, rp["offset"], rp.get("weighted", False))
+        if o is not None:
+            print("  ", o[1])
+        return o is not None
+    if rp.get("kind") == "weights-refit":
+        o = weights_refit_oracle(DP, rp["seed"])
+        if o is not None:
+            print("  ", o[1])
+        return o is not None
     if rp.get("kind") == "single":
         st, sig, msg, _ = single_oracle(DP, F, virocon, rp["case"])
         if st == "fail":
@@ -1211,6 +1309,28 @@ def run(ctx):
             cd_fail = True
             ctx.violation(o[0], o[1], {"kind": "conddist-real", "case": small})
     ctx.notes["conditional_fit_real_optimiser"] = ncd_real
+
+    # ---------------- re-fits with weights that depend on the data (every run)
+    nwr, wr_fail = 0, 0
+    for _ in range(ctx.n(24, 240)):
+        sd = rng.randrange(1 << 30)
+        try:
+            o = weights_refit_oracle(DP, sd)
+        except (RuntimeError, ValueError, TypeError) as e:      # optimiser failure: not judged
+            ctx.notes["weights_refit_unjudged"] = ctx.notes.get("weights_refit_unjudged", 0) + 1
+            continue
+        nwr += 1
+        ctx.count(("weights-refit", sd), True)
+        if o is not None and wr_fail < 2:
+            wr_fail += 1
+            ctx.violation(o[0], o[1], {"kind": "weights-refit", "seed": sd})
+    ctx.notes["weights_refit_histories"] = nwr
+    # fit, then re-fit from an estimate that is tiny but not zero (KNOWN finding F-C14-refit-from-tiny-estimate on the unchanged tree)
+    for off, wgt in ((1e-9, False), (1e-8, False), (-1e-9, True), (1e-10, False), (0.0, False), (1e-3, False)):
+        o = tiny_start_refit_oracle(DP, off, wgt)
+        ctx.count(("tiny-start", off, wgt), True)
+        if o is not None:
+            ctx.violation(o[0], o[1], {"kind": "tiny-start", "offset": off, "weighted": wgt})
 
     # ---------------- (d) single functions: dispatch correspondence + property oracle
     n_single = ctx.n(700, 8000)
